@@ -29,6 +29,8 @@ def forms(k):
 AUX = {"kw": {k: forms(k) for k in KWS}, "mb": ["é", "✓", "😀", " ", "﻿"],
        "seps": [" ", "\n", "\t", "  ", "\r\n", "\r"], "comments": [" # c\n", " #\n", "\n# SELECT { \n", " # c\r", " # } LIMIT 1\r\n", "\r# é\r"],
        "tails": [" # done", "\n#", "\r"],
+       "badterms": ["<urn:\\u006é>", "<urn:\\U0001F64€>", "<http://e/\\u00é9>", "<http://e/\\u00zz>", "<http://e/\\ud800>", "<http://e/\\U0011FFFF>", "<http://e/\\u00>",
+                    '"x\\u00é y"', "'\\U0001F6😀'", '"\\q"', '"a\\u+041"', "e:caf%C3%é", "e:a%4g", "e:a%", '"l1"@é', '"5"^^<http://e/\\u00é>', "?é\\u00", "_:b\\u00é"],
        "cuts": ["e:a%4", "e:caf%C3%A", "ex:g%", ":x%e", "e:", '"x\\u00E', "'x\\U0001F6", '"\\u', '"a\\', '"abc', "'", '<http://e/\\u00', '<http://e/\\U0000000', '<http://e/i', '"x\\u00é', "?", "$", "_:", '"l1"^^', '"l1"@',
                 '"""abc', "<<", "<< <http://e/i1>", "1.", "-", "+", "1e", "\\"]}
 # variable names outside ASCII (SPARQL VARNAME admits letters and digits of any script), and ones that end in a digit / underscore
@@ -144,9 +146,12 @@ def gen_trees(seed, n):
         if i % 7 == 3 and kind != "group":
             # a PREFIX prologue: IRIs of the namespace are written as prefixed names (only parse_combined_query reads a prologue)
             txt["~prefix"] = G.NS
+            pn = []
             for x in list(txt):
                 if x.startswith(G.NS) and x[len(G.NS):].isalnum():
                     txt[x] = "e:" + x[len(G.NS):]
+                    pn.append(txt[x])
+            txt["~pn"] = pn or ["e:none"]
         cases.append({"kind": kind, "tree": tree, "txt": txt})
     return cases
 
@@ -167,7 +172,7 @@ def run(ctx):
         vlib.write_ndjson(os.path.join(wd, "cases.ndjson"), [case])
     else:
         thorough = ctx.tier == "thorough"
-        ntrees, nclean, nfaulty = (400, 9000, 9000) if thorough else (120, 1000, 1000)
+        ntrees, nclean, nfaulty = (300, 8000, 8000) if thorough else (120, 1000, 1000)
         trees = gen_trees(ctx.seed, ntrees)
         vlib.write_ndjson(os.path.join(wd, "trees.ndjson"), trees)
         json.dump(AUX, open(os.path.join(wd, "aux.json"), "w"))
